@@ -300,4 +300,135 @@ def specFramesFrom (f : Flags) : List Req → List Frame
   | r :: rs => edge f r ++ specFramesFrom (r.apply f) rs
 def specFrames (rs : List Req) : List Frame := specFramesFrom Flags.empty rs
 
+
+/-! ### The owners of the reasons: session, friends list, transfers
+
+The tracking manager above only folds the requests it is given. Who gives them, and when:
+
+* the application:            `track_user` / `untrack_user` (any `Op` of the layer above);
+* `UserManager._on_session_initialized` (user/manager.py:463-479): after every login the own name and every
+  name in `settings.users.friends` is tracked with FRIEND; `_on_friend_list_changed` (484-495) tracks / untracks
+  a name added to / removed from the list while a session exists (the user management job that notices the
+  change, 258-290, is collapsed into the change: its polling latency of 1 s is not modelled);
+* `TransferManager.manage_user_tracking` (transfer/manager.py:497-515), once per management cycle:
+  `track_user(u, TRANSFER)` for every user with an unfinished transfer, `untrack_user(u, TRANSFER)` for every
+  user whose transfers are all finished; `TransferManager.remove` (with `fixes/C15-transfer-reason-kept-after-remove.patch`)
+  withdraws the reason of a user whose last transfer is removed — the cycle cannot: such a user is in neither set;
+* server connection CLOSED: the tracking manager drops everything (`serverClosed`), the client destroys the
+  session (client.py:376-382). Nothing is told to the transfer manager and nothing is kept by the user manager:
+  the reasons come back because their owners derive them again (next login, next cycle).
+
+`cycleRan` is a ghost: a management cycle ran after the last change of the transfers / the last close (the code
+requests a cycle on every such change and on every login, `request_management_cycle`; that wiring is exercised
+on the real code, not modelled).
+-/
+
+def fReq : Flags := ⟨true, false, false⟩
+def fTr : Flags := ⟨false, true, false⟩
+def fFr : Flags := ⟨false, false, true⟩
+
+/-- the logged-in user's own name (tracked with FRIEND at every login, user/manager.py:474-476) -/
+def me : Nat := 2
+
+/-- `Transfer`: only what `manage_user_tracking` looks at -/
+structure Xfer where
+  id : Nat
+  user : Nat
+  finished : Bool       -- `Transfer.is_finalized()` (COMPLETE, ABORTED, FAILED)
+deriving DecidableEq, Repr
+
+structure World where
+  t : State               -- `UserTrackingManager`
+  session : Bool          -- `UserManager._session is not None`
+  friends : List Nat      -- `settings.users.friends`
+  xfers : List Xfer       -- `TransferManager._transfers`
+  nextId : Nat
+  cycleRan : Bool         -- ghost, see above
+
+def World.init : World := ⟨State.init, false, [], [], 0, false⟩
+
+/-- a set built from a list (the code builds `set`s; order and repetition of requests for *different* users
+are not observable, a repeated request for the same user is a no-op) -/
+def dedup : List Nat → List Nat
+  | [] => []
+  | a :: l => if a ∈ l then dedup l else a :: dedup l
+
+namespace World
+
+/-- "u has an unfinished transfer": the TRANSFER reason as the documentation states it (USAGE.rst:748) -/
+def HasUnfinished (w : World) (u : Nat) : Prop := ∃ x ∈ w.xfers, x.user = u ∧ x.finished = false
+def HasFinished (w : World) (u : Nat) : Prop := ∃ x ∈ w.xfers, x.user = u ∧ x.finished = true
+def HasXfer (w : World) (u : Nat) : Prop := ∃ x ∈ w.xfers, x.user = u
+
+instance (w : World) (u : Nat) : Decidable (w.HasUnfinished u) := by unfold HasUnfinished; infer_instance
+instance (w : World) (u : Nat) : Decidable (w.HasFinished u) := by unfold HasFinished; infer_instance
+instance (w : World) (u : Nat) : Decidable (w.HasXfer u) := by unfold HasXfer; infer_instance
+
+/-- `unfinished_users` (503-506) -/
+def unfinishedUsers (w : World) : List Nat := dedup ((w.xfers.filter (fun x => !x.finished)).map (·.user))
+/-- `finished_users - unfinished_users` (507-510, 514) -/
+def finishedOnlyUsers (w : World) : List Nat :=
+  (dedup ((w.xfers.filter (fun x => x.finished)).map (·.user))).filter (fun u => ¬ w.HasUnfinished u)
+
+/-- the requests of one `manage_user_tracking` (512-515) -/
+def cycleOps (w : World) : List Op :=
+  w.unfinishedUsers.map (Op.track · fTr) ++ w.finishedOnlyUsers.map (Op.untrack · fTr)
+
+/-- the requests of `_on_session_initialized` (474-479) -/
+def loginOps (w : World) : List Op := Op.track me fFr :: (dedup w.friends).map (Op.track · fFr)
+
+/-- server connection CLOSED: tracking dropped (712-732), session destroyed (client.py:376-382) -/
+def close (w : World) : World := { w with t := step w.t .serverClosed, session := false, cycleRan := false }
+
+def setFinished (w : World) (id : Nat) (b : Bool) : World :=
+  { w with xfers := w.xfers.map (fun x => if x.id = id then { x with finished := b } else x), cycleRan := false }
+
+end World
+
+inductive WOp
+  | base (op : Op)               -- the application / the tracking tasks / the clock / the server closing
+  | login                        -- SessionInitializedEvent
+  | cycle                        -- one `manage_user_tracking`
+  | friend (u : Nat) (b : Bool)  -- name added to / removed from the friends list (and noticed)
+  | tadd (u : Nat)               -- a transfer for u is added (unfinished)
+  | tfin (id : Nat)              -- transfer reaches a final state
+  | tque (id : Nat)              -- finished transfer queued again
+  | trm (id : Nat)               -- `TransferManager.remove`
+deriving Repr
+
+def wstep (w : World) : WOp → World
+  | .base .serverClosed => w.close
+  | .base op => { w with t := step w.t op }
+  | .login => { w with t := run w.t w.loginOps, session := true }
+  | .cycle => { w with t := run w.t w.cycleOps, cycleRan := true }
+  | .friend u true =>
+    if u ∈ w.friends then w
+    else { w with friends := w.friends ++ [u], t := if w.session then step w.t (.track u fFr) else w.t }
+  | .friend u false =>
+    if u ∈ w.friends then
+      { w with friends := w.friends.filter (· ≠ u), t := if w.session then step w.t (.untrack u fFr) else w.t }
+    else w
+  | .tadd u => { w with xfers := w.xfers ++ [⟨w.nextId, u, false⟩], nextId := w.nextId + 1, cycleRan := false }
+  | .tfin id => w.setFinished id true
+  | .tque id => w.setFinished id false
+  | .trm id =>
+    match w.xfers.find? (fun x => x.id = id) with
+    | none => w
+    | some x =>
+      let rest := w.xfers.erase x
+      { w with xfers := rest, cycleRan := false,
+               t := if ∃ y ∈ rest, y.user = x.user then w.t else step w.t (.untrack x.user fTr) }
+
+def wrun (w : World) (ops : List WOp) : World := ops.foldl wstep w
+
+/-- the application only ever names the reason that is its own (REQUESTED); FRIEND and TRANSFER belong to the
+user manager and the transfer manager -/
+def WOp.appOk : WOp → Bool
+  | .base (.track _ f) => decide (f = fReq)
+  | .base (.untrack _ f) => decide (f = fReq)
+  | _ => true
+
+/-- `R_u`: the reasons after applying, in issue order, every request made for u since the last close -/
+def reasons (s : State) (u : Nat) : Flags := specFlags (s.users u).issued
+
 end AioslskVerif.Track
